@@ -93,7 +93,7 @@ func highRatioBlock(exts int, last byte) []byte {
 func runCodecs(seed uint64, n int, tier string, out string, replay string) {
 	rnd := hx.NewRand(seed)
 	sum := hx.NewSummary("codecs", seed)
-	sum.Rule = "Coq-evaluated cases: (a) level handling — a profile configured with each value of {0..13, 99, 2^31-1, 2^31, 2^32-1, 2^32+5} through compress.Reset; pike's gzip/brotli output for a probe body is compared with the reference encoders at every level to identify the level in effect; (b) decoder dispatch for the five documented encodings, identity and unsupported names; (c) LZ4 blocks — encoder outputs for n small bodies, hand-made high-ratio blocks (0..6 length-extension bytes: up to 1.5 KiB from 11 bytes), truncated blocks — pike's LZ4Decode vs the block-decoder model. Go-side only (volume): round trips of bodies 0 B..1 MiB (random, text, zeros, pattern) through pike's gzip/brotli at levels -1..12 decoded by pike AND by the reference decoders; all five pike decoders on reference-encoded streams incl. 1 MiB of zeros; 200 mutated streams per decoder under recover + 20 s watchdog; structured valid streams (multi-member / header-field / stored / huffman-only gzip, multi-frame and checksummed zstd, brotli at several qualities and window sizes and with flushes, literal-only snappy, LZ4 HC block) must be restored in full. non-trivial = level case outside 1..9 or block with ratio > 10; distinct by case content"
+	sum.Rule = "Coq-evaluated cases: (a) level handling — a profile configured with each value of {0..13, 99, 2^31-1, 2^31, 2^32-1, 2^32+5} through compress.Reset; pike's gzip/brotli output for a probe body is compared with the reference encoders at every level to identify the level in effect; (b) decoder dispatch for the five documented encodings, identity and unsupported names; (c) LZ4 blocks — encoder outputs for n small bodies, hand-made high-ratio blocks (0..6 length-extension bytes: up to 1.5 KiB from 11 bytes), truncated blocks — pike's LZ4Decode vs the block-decoder model. Go-side only (volume): round trips of bodies 0 B..1 MiB (random, text, zeros, pattern) through pike's gzip/brotli at levels -1..12 decoded by pike AND by the reference decoders; all five pike decoders on reference-encoded streams incl. 1 MiB of zeros; 200 mutated streams per decoder under recover + 20 s watchdog; structured valid streams (multi-member / header-field / stored / huffman-only gzip, multi-frame and checksummed zstd, brotli at several qualities and window sizes and with flushes, literal-only snappy, LZ4 HC block) must be restored in full; ~90 crafted malformed streams (extreme declared sizes and flag combinations in zstd / snappy / gzip / brotli / lz4 framing) under recover + watchdog. non-trivial = level case outside 1..9 or block with ratio > 10; distinct by case content"
 	header := "From Coq Require Import List NArith ZArith.\nImport ListNotations.\nFrom Pike Require Import Base.Bytes Model.Compress Model.LZ4 Corr.C12Corr.\n"
 	w := hx.NewCaseWriter(out, "codecs", header, "list c12_case", "check_cases", 60, sum)
 	distinct := hx.NewDistinct()
@@ -337,6 +337,88 @@ func runCodecs(seed uint64, n int, tier string, out string, replay string) {
 		sum.Count("valid-stream:" + v.codec)
 		if err != nil || !bytes.Equal(d, v.want) {
 			sum.ImplViolations = append(sum.ImplViolations, map[string]interface{}{"property": "C12", "kind": "valid-stream-not-restored", "codec": v.codec, "shape": v.shape, "stream_len": len(v.stream), "want_len": len(v.want), "got_len": len(d), "error": fmt.Sprint(err)})
+		}
+	}
+	// ---- crafted malformed streams: well-formed framing with extreme declared sizes / flag combinations
+	// (random bit flips almost never produce these); none may panic or hang a decoder
+	{
+		le := func(v uint64, n int) []byte {
+			b := make([]byte, n)
+			for i := 0; i < n; i++ {
+				b[i] = byte(v >> (8 * uint(i)))
+			}
+			return b
+		}
+		type crafted struct {
+			codec, what string
+			data        []byte
+		}
+		var cs []crafted
+		zmagic := []byte{0x28, 0xB5, 0x2F, 0xFD}
+		zw, _ := zstd.NewWriter(nil)
+		zvalid := zw.EncodeAll(bytes.Repeat([]byte("zstd "), 40), nil)
+		for _, sz := range []uint64{1 << 63, 1<<64 - 1, 1<<63 + 12345, 1 << 62, 1 << 40, 1 << 32, 0} {
+			// descriptor 0xE0: 8-byte Frame_Content_Size, single segment; then one raw block "a" marked last
+			cs = append(cs, crafted{"zst", fmt.Sprintf("frame content size %d, single segment", sz), append(append(append([]byte{}, zmagic...), append([]byte{0xE0}, le(sz, 8)...)...), 0x09, 0x00, 0x00, 'a')})
+			// descriptor 0xC0: 8-byte size + window descriptor
+			cs = append(cs, crafted{"zst", fmt.Sprintf("frame content size %d, windowed", sz), append(append(append([]byte{}, zmagic...), append([]byte{0xC0, 0x50}, le(sz, 8)...)...), 0x09, 0x00, 0x00, 'a')})
+		}
+		for _, d := range []byte{0x20, 0x40, 0x60, 0x80, 0xA0, 0xC0, 0xE0, 0xFF, 0x08, 0x04, 0x03} {
+			m := append([]byte{}, zvalid...)
+			if len(m) > 12 {
+				m[4] |= d
+				cs = append(cs, crafted{"zst", fmt.Sprintf("valid stream with descriptor |= %#x", d), m})
+				m2 := append([]byte{}, m...)
+				for k := 5; k < 13 && k < len(m2); k++ {
+					m2[k] = 0xFF
+				}
+				cs = append(cs, crafted{"zst", fmt.Sprintf("descriptor |= %#x and the 8 following bytes 0xFF", d), m2})
+			}
+		}
+		uv := func(v uint64) []byte {
+			var b []byte
+			for v >= 0x80 {
+				b = append(b, byte(v)|0x80)
+				v >>= 7
+			}
+			return append(b, byte(v))
+		}
+		for _, sz := range []uint64{1 << 28, 1<<32 + 1, 1 << 40, 1<<64 - 1, 0} {
+			cs = append(cs, crafted{"snz", fmt.Sprintf("declared length %d, one literal", sz), append(uv(sz), 0x00, 'a')})
+		}
+		cs = append(cs, crafted{"snz", "length varint that never ends", bytes.Repeat([]byte{0xFF}, 12)})
+		cs = append(cs, crafted{"snz", "copy with offset 0", append(uv(8), 0x00, 'a', 0x01|(4<<2), 0x00)})
+		g := refGzip(bytes.Repeat([]byte("gzip "), 40), 6)
+		for _, fl := range []byte{0x02, 0x04, 0x08, 0x10, 0x1C, 0xE0, 0xFF} {
+			m := append([]byte{}, g...)
+			m[3] = fl
+			cs = append(cs, crafted{"gzip", fmt.Sprintf("header flags %#x", fl), m})
+		}
+		{
+			m := append([]byte{}, g[:10]...) // header, then FEXTRA with a huge XLEN
+			m[3] = 0x04
+			m = append(m, 0xFF, 0xFF, 1, 2, 3)
+			cs = append(cs, crafted{"gzip", "FEXTRA with XLEN 65535 and 3 bytes", m})
+			m3 := append([]byte{}, g...)
+			copy(m3[len(m3)-4:], le(1<<32-1, 4))
+			cs = append(cs, crafted{"gzip", "ISIZE 2^32-1", m3})
+			cs = append(cs, crafted{"gzip", "stored block LEN/NLEN mismatch", append(append([]byte{}, g[:10]...), 0x01, 0xFF, 0xFF, 0x12, 0x34, 'x')})
+		}
+		for _, first := range []byte{0x00, 0x01, 0x0F, 0x11, 0x21, 0x3F, 0x7F, 0x81, 0xFF} {
+			cs = append(cs, crafted{"br", fmt.Sprintf("first byte %#x then 0xFF x 16", first), append([]byte{first}, bytes.Repeat([]byte{0xFF}, 16)...)})
+		}
+		for _, exts := range []int{1, 100, 5000} {
+			cs = append(cs, crafted{"lz4", fmt.Sprintf("literal length with %d extension bytes and no literals", exts), append([]byte{0xF0}, bytes.Repeat([]byte{0xFF}, exts)...)})
+			cs = append(cs, crafted{"lz4", fmt.Sprintf("match length with %d extension bytes", exts), append([]byte{0x1F, 'a', 1, 0}, bytes.Repeat([]byte{0xFF}, exts)...)})
+		}
+		for _, c := range cs {
+			c := c
+			g := guard(func() ([]byte, error) { return compress.Get("").Decompress(c.codec, c.data) })
+			sum.Count("crafted-malformed:" + c.codec)
+			rt++
+			if g.panicked || g.hung {
+				sum.ImplViolations = append(sum.ImplViolations, map[string]interface{}{"property": "C12", "kind": "panic-or-hang", "codec": c.codec, "what": c.what, "panicked": g.panicked, "hung": g.hung, "stream_hex": fmt.Sprintf("%x", c.data[:min(len(c.data), 64)])})
+			}
 		}
 	}
 	sum.Distribution["go_side_roundtrips"] = rt
